@@ -217,9 +217,14 @@ def run(tier="quick", seed=0, replay_path=None):
             chk.note_nontrivial(common.case_hash([c["q"], ln["cutdepth"], ln["cutkind"]]))
         if ln["tid"] in rejects:
             flags = {}
-            if "cum" in rel.ops_of(c["q"]) and not c.get("parquet"):
+            if "cum" in rel.ops_of(c["q"]):
                 tabs = rel.make_tables(c["dseed"])
-                flags["cum_input_allnull_partition"] = rel.cum_input_allnull_partition(c["q"], rel.dask_sources(tabs, {"T1": ("from_pandas", c["np1"]), "T2": ("from_pandas", c["np2"])}))
+                if not c.get("parquet"):
+                    layouts = [("from_pandas", c["np1"])]
+                else:       # the files of the dataset, and the pairs of files the projected reader fuses (F46)
+                    n = len(tabs["T1"])
+                    layouts = [("cuts", [i * n // 4 for i in (1, 2, 3)], False), ("cuts", [2 * n // 4], False)]
+                flags["cum_input_allnull_partition"] = any(rel.cum_input_allnull_partition(c["q"], rel.dask_sources(tabs, {"T1": lay, "T2": ("from_pandas", c["np2"])})) for lay in layouts)
             chk.fail(rejects[ln["tid"]], {**flags, "q": c["q"], "sc": c["sc"], "dseed": c["dseed"], "np1": c["np1"], "np2": c["np2"], "ops": rel.ops_of(c["q"]),
                                           "cutdepth": ln["cutdepth"], "cutkind": ln["cutkind"], "errmsg": ln["msg"], "parquet": bool(c.get("parquet")),
                                           "cut_ops": rel.ops_of(nodes_of(c["q"])[ln["cutdepth"]]) if ln["cutdepth"] < len(nodes_of(c["q"])) else []},
